@@ -396,3 +396,30 @@ builder_ops!(c02_builder_ops_plain, FixedBuf::<64> { data: [0; 64], len: 0 }, no
 // @funcs: StreamTarget::{new,append_slice,truncate,update_shim,as_stream_slice} under MessageBuilder
 // @bound: same script on StreamTarget<FixedBuf<66>>: after every operation the two-octet prefix equals the message length
 builder_ops!(c02_builder_ops_stream, StreamTarget::new(FixedBuf::<66> { data: [0; 66], len: 0 }).unwrap(), stream_slice, true);
+
+// @funcs: MessageBuilder::{from_target,push,set_push_limit,counts}, QuestionBuilder::push, HeaderCounts::inc_qdcount
+// @bound: one question push (name ab.c with symbolic label octets, symbolic type/class) under any push limit (usize, full width) on FixedBuf<48>: the push succeeds <=> the message stays below the limit; after a failed push the length is 12 and QDCOUNT is 0, after a successful one 22 and 1
+#[kani::proof]
+#[kani::unwind(10)]
+fn c02_failed_push_leaves_counts_and_octets() {
+    let c: [u8; 3] = kani::any();
+    let w = flat_abc(&c);
+    let n = Name::from_octets(&w[..]).unwrap();
+    let (qt, qc): (u16, u16) = (kani::any(), kani::any());
+    let lim: usize = kani::any();
+    let mut q = MessageBuilder::from_target(FixedBuf::<48> { data: [0; 48], len: 0 }).unwrap().question();
+    q.set_push_limit(lim);
+    let r = q.push((n, Rtype::from_int(qt), Class::from_int(qc)));
+    assert!(r.is_ok() == (22 < lim));
+    let cnt = q.counts();
+    if r.is_ok() {
+        assert!(cnt.qdcount() == 1 && q.as_slice().len() == 22);
+        assert!(q.as_slice()[5] == 1);
+    } else {
+        assert!(cnt.qdcount() == 0 && q.as_slice().len() == 12);
+        assert!(q.as_slice()[4] == 0 && q.as_slice()[5] == 0);
+    }
+    assert!(cnt.ancount() == 0 && cnt.nscount() == 0 && cnt.arcount() == 0);
+    kani::cover!(r.is_err(), "limit hit");
+    kani::cover!(r.is_ok(), "fits");
+}
